@@ -33,6 +33,9 @@ func errInfo(err error) string {
 	if e, ok := err.(interface{ Code() jerr.ErrorCode }); ok {
 		return fmt.Sprintf("E%d", int(e.Code()))
 	}
+	if e, ok := err.(interface{ ErrCode() int }); ok { // library validation error without a position
+		return fmt.Sprintf("E%d", e.ErrCode())
+	}
 	return fmt.Sprintf("FOREIGN(%T)", err)
 }
 
